@@ -9,13 +9,13 @@ Open Scope N_scope.
    middle group: the history finishes, the final graph is acyclic (ranked), exact, and leaf 5 is an
    indirect member of 0, 1 and 2 again after the revive *)
 Definition w_ops : list op :=
-  [OCreate [mknew 0 true false [1]; mknew 1 true false [2]; mknew 2 true false [5];
+  [OCreate false [mknew 0 true false [1]; mknew 1 true false [2]; mknew 2 true false [5];
             mknew 3 true true []; mknew 5 false false []; mknew 6 false false []] [(3, [6])];
-   OMod [1] [(1, [2; 6])] [];
+   OMod false [1] [(1, [2; 6])] [];
    ODelete [1];
-   OMod [5] [] [(3, [5; 6])];
+   OMod false [5] [] [(3, [5; 6])];
    ORevive 1 [];
-   OMod [6] [] [(3, [5])]].
+   OMod false [6] [] [(3, [5])]].
 Example C17_witness_run : exists s,
   run [] w_ops = Some s /\ rankedb s = true /\ exactb s = true /\ lcb s = true /\ dynwfb s = true
   /\ existsb (fun e => (eid e =? 5) && leqb (emo e) [0; 1; 2; 3] && leqb (edmo e) [2; 3]) s = true
@@ -25,8 +25,8 @@ Proof. eexists. split; [vm_compute; reflexivity | vm_compute; tauto]. Qed.
 (* a history that builds a 3-cycle with a tail: it finishes, the state is exact, every group of the cycle
    is a member of itself (hypothesis of C17_cycle_self_member) *)
 Definition w_cyc : list op :=
-  [OCreate [mknew 0 true false [1]; mknew 1 true false [2]; mknew 2 true false [7]; mknew 7 false false []] [];
-   OMod [2] [(2, [0; 7])] []].
+  [OCreate false [mknew 0 true false [1]; mknew 1 true false [2]; mknew 2 true false [7]; mknew 7 false false []] [];
+   OMod false [2] [(2, [0; 7])] []].
 Example C17_witness_cycle : exists s,
   run [] w_cyc = Some s /\ exactb s = true /\ cyclicb s = true
   /\ forallb (fun e => negb (egrp e) || nmem (eid e) (emo e)) s = true
@@ -47,13 +47,13 @@ Proof. vm_compute. tauto. Qed.
 (* the two histories as recorded from the REAL server: the model agrees with every step, the property
    fails, and the failure is inside the known classes *)
 Definition real_stale : case :=
-  CHist [mkstep (OCreate [mknew 0 true false [2]; mknew 1 true false [0]; mknew 2 true false [1];
+  CHist [mkstep (OCreate false [mknew 0 true false [2]; mknew 1 true false [0]; mknew 2 true false [1];
                           mknew 3 true false [0]] []) 0 stale_pre;
          mkstep stale_op 0 stale_post].
 Example C17_witness_real_stale : agree real_stale = true /\ pcheck real_stale = false /\ known real_stale = true.
 Proof. vm_compute. tauto. Qed.
 Definition real_osc : case :=
-  CHist [mkstep (OCreate [mknew 0 true false []; mknew 1 true false []; mknew 2 true false [0];
+  CHist [mkstep (OCreate false [mknew 0 true false []; mknew 1 true false []; mknew 2 true false [0];
                           mknew 3 true false [1]] []) 0 osc_pre;
          mkstep osc_op 2 osc_pre].
 Example C17_witness_real_oscillation : agree real_osc = true /\ pcheck real_osc = false /\ known real_osc = true.
@@ -62,6 +62,20 @@ Proof. vm_compute. tauto. Qed.
 (* a property failure that is NOT in a known class is reported: an acyclic state with a surplus MemberOf *)
 Example C17_witness_unknown_failure :
   let bad := [mkent 0 true false true [1] [] [] [] []; mkent 1 false false true [] [] [0; 9] [0] []] in
-  let c := CHist [mkstep (OMod [] [] []) 0 bad] in
+  let c := CHist [mkstep (OMod false [] [] []) 0 bad] in
   pcheck c = false /\ known c = false.
 Proof. vm_compute. tauto. Qed.
+
+(* the refuting inputs do not depend on which referential-integrity variant the tree has *)
+Example C17_witness_refuted_strict_refint :
+  step stale_pre (OMod true [3] [(3, [])] []) = Some stale_post
+  /\ step osc_pre (OMod true [0; 1; 2; 3] [(0, [1]); (1, [0]); (2, []); (3, [])] []) = None.
+Proof. vm_compute. tauto. Qed.
+(* the two variants differ exactly on a recycled reference that comes with a live one *)
+Example C17_witness_refint_variants :
+  let s := [mkent 0 true false true [] [] [] [] []; mkent 1 true false false [] [] [] [] [];
+            mkent 2 false false true [] [] [] [] []] in
+  (exists s1, step s (OMod false [0] [(0, [1; 2])] []) = Some s1 /\ existsb (fun e => leqb (emem e) [1; 2]) s1 = true)
+  /\ step s (OMod true [0] [(0, [1; 2])] []) = Some s
+  /\ step s (OMod false [0] [(0, [1])] []) = Some s.
+Proof. vm_compute. split; [eexists; split; reflexivity | tauto]. Qed.
